@@ -144,6 +144,24 @@ def run_case(case, ctx):
                             ctx.check(wc not in raw[1], "writecap-in-plaintext", "%s: %s: the directory file at %r, as downloaded with a read cap, contains the write cap %r in the clear" % (desc, label, path, wc))
                         for wk in writekeys:
                             ctx.check(wk not in raw[1], "writekey-in-plaintext", "%s: %s: the directory file at %r contains write key %r" % (desc, label, path, wk))
+                        # a read-cap holder who happens to know ONE child's write cap (e.g. he created that child) must not be able to strip the encryption of
+                        # a sibling's write-cap slot with it: the key streams of different children must differ
+                        from allmydata.util.netstring import split_netstring
+                        pos_, slots = 0, []
+                        while pos_ < len(raw[1]):
+                            (entry,), pos_ = split_netstring(raw[1], 1, pos_)
+                            (nm_, ro_, rwcapdata, md_), _x = split_netstring(entry, 4)
+                            rwc = expect.get(path + (nm_.decode("utf-8"),))
+                            if rwc and len(rwcapdata) > 48:
+                                ct = rwcapdata[16:-32]
+                                slots.append((nm_, rwc, bytes(a ^ b for a, b in zip(ct, rwc))))
+                        for i_ in range(len(slots)):
+                            for j_ in range(i_ + 1, len(slots)):
+                                m_ = min(len(slots[i_][2]), len(slots[j_][2]), 24)
+                                if slots[i_][1] != slots[j_][1] and m_ >= 16:
+                                    classes.add("sibling-writecaps-compared")
+                                    ctx.check(slots[i_][2][:m_] != slots[j_][2][:m_], "writecap-keystream-reused",
+                                              "%s: %s: in the directory at %r the write-cap slots of %r and %r are encrypted with the same key stream: knowing one child's write cap reveals the other's" % (desc, label, path, slots[i_][0], slots[j_][0]))
                 for name, (ch, md) in sorted(r[1].items()):
                     p = path + (name,)
                     alive.append(ch)      # the client keeps the nodes it has seen (as open operations and caches do), so the node cache stays populated
